@@ -590,7 +590,15 @@ func (s *Server) handleNewConnection(ctx context.Context, rwc io.ReadWriteCloser
 	// until the session holds what the account manager holds.)
 	for i := 0; i < 8; i++ {
 		account := c.Server.AccountManager.Get(login)
-		if account == nil || account.Access == c.Account.Access {
+		if account == nil {
+			// The account was deleted or renamed away while this login was under way, at a moment when the session was
+			// not yet in the client list such a request goes through: there is no account left to be logged in to.
+			t := c.NewErrReply(&clientLogin, "Incorrect login.")[0]
+			_, _ = io.Copy(rwc, &t)
+
+			return nil
+		}
+		if account.Access == c.Account.Access {
 			break
 		}
 
